@@ -99,7 +99,7 @@ CORE = ['repo:src/PolarGrid/*.cpp', 'repo:src/Level/*.cpp', 'repo:src/Stencil/*.
         'repo:src/Residual/**/*.cpp', 'repo:src/Smoother/**/*.cpp', 'repo:src/ExtrapolatedSmoother/**/*.cpp',
         'repo:src/DirectSolver/**/*.cpp']
 GMG = ['repo:src/GMGPolar/MultigridMethods/*.cpp', 'repo:src/GMGPolar/solver.cpp', 'repo:src/GMGPolar/setup.cpp',
-       'repo:src/GMGPolar/build_rhs_f.cpp', 'repo:src/GMGPolar/level_interpolation.cpp', 'repo:src/GMGPolar/gmgpolar.cpp']
+       'repo:src/GMGPolar/build_rhs_f.cpp', 'repo:src/GMGPolar/level_interpolation.cpp', 'repo:src/GMGPolar/writeToVTK.cpp']
 GEOM = ['repo:src/InputFunctions/DomainGeometry/*.cpp', 'repo:src/InputFunctions/DensityProfileCoefficients/*.cpp']
 
 
